@@ -30,6 +30,29 @@ import re
 ABSENT_RE = re.compile("|".join(re.escape(f'{LK[k][0]}({LK[k][1]}="{nm}")') for k in LK for nm in ABSENT[k]))
 
 
+class TooSlow(BaseException):
+    pass
+
+
+class time_limit:
+    def __init__(self, seconds):
+        self.seconds = seconds
+
+    def __enter__(self):
+        import signal
+
+        def on_alarm(*a):
+            raise TooSlow()
+        self.old = signal.signal(signal.SIGALRM, on_alarm)
+        signal.alarm(self.seconds)
+
+    def __exit__(self, *a):
+        import signal
+        signal.alarm(0)
+        signal.signal(signal.SIGALRM, self.old)
+        return False
+
+
 # ---------- expression trees ----------
 def rnd_lookup(rng, p_absent=0.06):
     k = rng.choice(list(LK))
@@ -53,7 +76,13 @@ def atom(rng, env, meths, depth, p_absent=0.0):
         return ("call", ("var", rng.choice(env["lams"])))
     if r < 0.92 and meths and depth < 2:
         m = rng.choice(meths)
-        return ("invoke", m[0], [("int", rng.randint(0, 2)) if p == "d" else atom(rng, env, [], depth + 1) for p in m[1]])
+        args = [("int", rng.randint(0, 2)) if p == "d" else atom(rng, env, [], depth + 1) for p in m[1]]
+        # sometimes written with keyword arguments in another order than the signature (same binding)
+        order = list(range(len(args)))
+        if len(args) >= 2 and rng.random() < 0.7:
+            order.reverse()
+            return ("invoke", m[0], args, [(m[1][i], i) for i in order])
+        return ("invoke", m[0], args)
     return ("tuple", [atom(rng, env, meths, depth + 1) for _ in range(rng.randint(1, 3))])
 
 
@@ -88,7 +117,7 @@ def gen_table(rng):
     meths = []          # (name, params, lets, tail, returns_closure)
     for i in range(rng.randint(1, 3)):
         name = f"m{i}"
-        params = ["d"] + (["q"] if rng.random() < 0.4 else [])
+        params = ["d"] + (["q"] if rng.random() < 0.6 else [])
         lets, tail, clos = gen_body(rng, params, [(m[0], m[1]) for m in meths if not m[4]], self_name=name if rng.random() < 0.6 else None)
         meths.append((name, params, lets, tail, clos))
     callable_ = [(m[0], m[1]) for m in meths if not m[4]]
@@ -122,6 +151,8 @@ def py_expr(e):
     if k == "add":
         return f"{py_expr(e[1])} + {py_expr(e[2])}"
     if k == "invoke":
+        if len(e) > 3:
+            return f"{e[1]}({', '.join(p + '=' + py_expr(e[2][i]) for p, i in e[3])})"
         return f"{e[1]}({', '.join(py_expr(a) for a in e[2])})"
     if k == "call":
         return f"{py_expr(e[1])}()"
@@ -267,10 +298,27 @@ def run(ctx):
         meths = gen_table(ctx.rng)
         fold = ctx.rng.random() < 0.5
         try:
-            spec_ns = kernels.define(py_table(meths, f"@move(arch_spec=S, fold={fold})"), S=S)
-            plain_ns = kernels.define(py_table(meths, "@move"), S=S)
+            with time_limit(15):
+                plain_ns = kernels.define(py_table(meths, "@move"), S=S)
+        except TooSlow:
+            ctx.hist("outcome", "skipped: kirin needs > 15 s to compile the table")
+            continue
         except Exception as e:
             ctx.hist("outcome", "definition error " + type(e).__name__)
+            continue
+        try:
+            with time_limit(25):
+                spec_ns = kernels.define(py_table(meths, f"@move(arch_spec=S, fold={fold})"), S=S)
+        except TooSlow:
+            # kirin's constant propagation through mutually recursive kernels can take minutes; speed is not the property
+            ctx.hist("outcome", "skipped: kirin needs > 25 s to compile the table with the spec")
+            continue
+        except Exception as e:
+            # the same kernels are accepted without a spec: compiling them WITH the spec must not be refused
+            ctx.evaluations += 1
+            ctx.hist("outcome", "refused only when compiled with the spec")
+            ctx.fail({"kind": "compile-with-spec-refused", "error": type(e).__name__}, {"src": py_table(meths, "@move"), "fold": fold},
+                     f"kernels accepted by @move are refused by @move(arch_spec=..., fold={fold}): {type(e).__name__}: {str(e)[:150]}")
             continue
         ctx.evaluations += 1
         try:
